@@ -1,0 +1,61 @@
+//! Verification hook H2 (only compiled with `--cfg jxl_oxide_verif`): observable events of the
+//! render-handle protocol (lock acquisitions, condition-variable waits and notifications, state
+//! stores, render executions). A harness installs a callback; without one nothing happens.
+
+use std::sync::{Arc, RwLock};
+
+/// One observable step of the render-handle protocol.
+pub enum Event<'a> {
+    /// About to lock the state mutex of `frame`. `probe()` tells whether the lock is free now.
+    BeforeLock {
+        frame: usize,
+        site: &'static str,
+        probe: &'a (dyn Fn() -> bool + 'a),
+    },
+    /// Holding the mutex, about to wait on the condition variable of `frame`.
+    CondWaitEnter { frame: usize },
+    /// Returned from the condition variable wait (mutex re-acquired).
+    CondWaitExit { frame: usize },
+    /// `notify_all` on the condition variable of `frame` (mutex held).
+    NotifyAll { frame: usize },
+    /// The state of `frame` was set (mutex held). `tag` names the new state.
+    StateStore { frame: usize, tag: &'static str },
+    /// A render / composite execution for `frame` starts.
+    RenderBegin { frame: usize, kind: &'static str },
+    /// ... and ends.
+    RenderEnd {
+        frame: usize,
+        kind: &'static str,
+        ok: bool,
+    },
+}
+
+type Hook = Arc<dyn for<'a> Fn(&Event<'a>) + Send + Sync>;
+
+static HOOK: RwLock<Option<Hook>> = RwLock::new(None);
+
+/// Installs (or removes) the global event callback.
+pub fn set_hook(hook: Option<Hook>) {
+    *HOOK.write().unwrap() = hook;
+}
+
+#[inline]
+pub(crate) fn emit(event: Event<'_>) {
+    let hook = HOOK.read().unwrap().clone();
+    if let Some(hook) = hook {
+        hook(&event);
+    }
+}
+
+pub(crate) fn state_tag<S: jxl_modular::Sample>(state: &crate::state::FrameRender<S>) -> &'static str {
+    use crate::state::FrameRender::*;
+    match state {
+        None => "None",
+        Rendering => "Rendering",
+        InProgress(_) => "InProgress",
+        Done(_) => "Done",
+        Blended(_) => "Blended",
+        Err(_) => "Err",
+        ErrTaken => "ErrTaken",
+    }
+}
